@@ -824,13 +824,15 @@ def generate_name_alternatives():
             if entry[4]:
                 for a in alternatives:
                     for up, up_data in unit_prefixes.items():
+                        # all spellings of micro name the same symbol, see above
+                        used_up = "μ" if up in ["u", "μ", "µ"] else up
                         if len(a) < 4:
-                            append_name(names[up + key], up + key, up + a)
+                            append_name(names[up + key], used_up + key, up + a)
                         alt = up_data[1] + a
                         if alt not in seen:
-                            append_name(names[up + key], up + key, alt)
+                            append_name(names[up + key], used_up + key, alt)
                         if alt.title() not in names[up + key]:
-                            append_name(names[up + key], up + key, alt.title())
+                            append_name(names[up + key], used_up + key, alt.title())
             for alt in alternatives:
                 append_name(names[key], key, alt)
                 if not alt.islower() or len(alt) < 4:
